@@ -13,8 +13,11 @@ CONFIGS = [
 
 
 class LogixScenario:
-    def __init__(self, rng, size="small", config=None, slot=0, init_program_tags=True, project=None, open_driver=True, bench=None, host=None):
-        """bench / host: a second controller at another address on the SAME fake network (two drivers, two PLCs, one process)"""
+    def __init__(self, rng, size="small", config=None, slot=0, init_program_tags=True, project=None, open_driver=True, bench=None, host=None,
+                 bridge=None):
+        """bench / host: a second controller at another address on the SAME fake network (two drivers, two PLCs, one process).
+        bridge: None = drawn (half of the non-Micro800 scenarios put a communication module in front of the controller), False = the
+        controller owns the Ethernet port (checks that aim faults at UNROUTED messages need the controller to answer those)"""
         import pycomm3
         self.rng = rng
         self.own_bench = bench is None
@@ -36,11 +39,18 @@ class LogixScenario:
         pol.accept_large_fo = large
         pol.list_identity_session = rng.choice(["echo", "echo", "zero", "other"])
         routes = {((1, slot),): self.dev}
+        front = self.dev
         if micro:
             # a Micro800 has no backplane: it is reached with an empty route only, a hop through port 1 does not exist
             # (the library strips "bp/0" once ListIdentity has told it what it is talking to)
             routes = {(): self.dev}
-        self.target = rt.RefTarget(rng, front=self.dev, routes=routes, policy=pol, log=self.b.log)
+        elif (rng.random() < 0.5) if bridge is None else bridge:
+            # a ControlLogix rack: the Ethernet port belongs to a communication module (it answers ListIdentity and unrouted
+            # messages, it holds no tags); the controller is reached through the backplane route only.  The other half of the
+            # scenarios is a CompactLogix-style controller that owns the port itself.
+            front = rt.Device(rt.Identity(product_type=0x0C, product_code=166, major=11, minor=2, serial=rng.getrandbits(32), name="1756-EN2T/D"), rng, self.b.log)
+        self.bridge = front is not self.dev
+        self.target = rt.RefTarget(rng, front=front, routes=routes, policy=pol, log=self.b.log)
         self.b.set_target(self.target, host=self.host)
         # Termination budget of one public call (socket operations, see FakeNet.op): finite, but sized for the largest legitimate
         # call of this scenario.  The unit is BYTES, not messages: the delivery schedule may hand the client one byte per recv(), so
